@@ -462,16 +462,31 @@ def flush_model(ctx, rule):
             "w3": Obj("w3", precedence=0, parameter_names=["b"], what="value", queued=True, onlychanged=True),
             "w4": Obj("w4", precedence=1, parameter_names=["a"], what="value", queued=False, onlychanged=True),
             "w5": Obj("w5", precedence=0, parameter_names=["a", "b"], what="value", queued=False, onlychanged=True),
+            # a watcher of the `bounds` slot of parameter a (events named A*): same name, other `what`
+            "w6": Obj("w6", precedence=0, parameter_names=["a"], what="bounds", queued=False, onlychanged=True),
         }
     # a0: an assignment of the value `a` already holds (queued on behalf of a set-watcher); what a
     # watcher qualifies for is decided when the event is queued, not again at the flush
-    event_seqs = [["a1"], ["a1", "b1"], ["a1", "b1", "a2"], ["b1", "a1"], ["a1", "a2"], ["a1", "a0", "b1"], ["a0", "b1"]]
+    # aback: `a` is assigned the value it held before the batch again (each of the two assignments is a change)
+    event_seqs = [["a1"], ["a1", "b1"], ["a1", "b1", "a2"], ["b1", "a1"], ["a1", "a2"], ["a1", "a0", "b1"], ["a0", "b1"], ["a1", "aback"], ["a1", "b1", "aback"],
+                  ["a1", "A1"], ["A1", "a1"], ["A1", "a1", "A2"], ["A1"]]
     n, bad = 0, []
     for evnames in event_seqs:
         for r in (1, 2, 3):
-            for order in itertools.permutations(["w1", "w2", "w3", "w4", "w5"], r):
+            for order in itertools.permutations(["w1", "w2", "w3", "w4", "w5", "w6"] if any(e[0] == "A" for e in evnames) else ["w1", "w2", "w3", "w4", "w5"], r):
                 ws = mk_watchers()
-                events = [Obj(e, name=e[0], what="value", id=e, changed=not e.endswith("0")) for e in evnames]
+                # a watcher is queued together with an event of a parameter it watches: other queue contents cannot arise
+                def _what(e):
+                    return "bounds" if e[0] == "A" else "value"
+                if any(not ({(e[0].lower(), _what(e)) for e in evnames} & {(nm, ws[k].attrs["what"]) for nm in ws[k].attrs["parameter_names"]}) for k in order):
+                    continue
+                cur = {"a": Obj("value_of_a_before_the_batch"), "b": Obj("value_of_b_before_the_batch"), "A": Obj("bounds_of_a_before_the_batch")}
+                start = dict(cur)
+                events = []
+                for e in evnames:
+                    new = cur[e[0]] if e.endswith("0") else start[e[0]] if e.endswith("back") else Obj("value_installed_by_" + e)
+                    events.append(Obj(e, name=e[0].lower(), what=_what(e), id=e, old=cur[e[0]], new=new, obj=None, cls=None, type=None))
+                    cur[e[0]] = new
                 # the queued watchers are no longer registered anywhere (e.g. a relink rebuilt the source watchers after
                 # the event was queued): what was queued for an event that happened is delivered all the same
                 pnames = {k: Obj("P_" + k, watchers={}) for k in ("a", "b", "c")}
@@ -487,19 +502,23 @@ def flush_model(ctx, rule):
                     if fn == "_batch_call_watchers":
                         return Obj("scope")
                     if fn.endswith("._changed") and len(args) == 1 and isinstance(args[0], Obj):
-                        return args[0].attrs.get("changed", True)
+                        return args[0].attrs.get("old") is not args[0].attrs.get("new")
+                    if fn == "Event" and not args:
+                        # an event the flush builds itself (e.g. one transition per parameter): judged by what it carries
+                        return Obj("event_built_by_the_flush", id="built", **kwargs)
                     if fn.endswith("._execute_watcher"):
                         if not (len(args) == 2 and isinstance(args[0], Obj) and isinstance(args[1], (list, tuple)) and all(isinstance(e, Obj) for e in args[1])):
                             raise AnalysisError("flush model: _execute_watcher is called with arguments the model cannot follow (%r)" % (args,))
-                        runs.append((args[0].name, [e.attrs["id"] for e in args[1]]))
+                        runs.append((args[0].name, [(e.attrs.get("name"), e.attrs.get("new")) for e in args[1]]))
                         # a queued watcher assigns `c` while it runs: raised once
                         if args[0].name == "w3" and not cascade["done"]:
                             cascade["done"] = True
-                            ns.attrs["_events"].append(Obj("c1", name="c", what="value", id="c1"))
+                            ns.attrs["_events"].append(Obj("c1", name="c", what="value", id="c1", old=Obj("value_of_c_before"), new=c_new))
                             ns.attrs["_state_watchers"].append(wc)
                         return None
                     return NotImplemented
                 wc = Obj("wc", precedence=0, parameter_names=["c"], what="value", queued=False, onlychanged=True)
+                c_new = Obj("value_installed_by_c1")
                 it = Interp(ctx.hier, dyn=P + "Parameters", inline=lambda m: True, call_hook=hook, strict_self_calls=True)
                 try:
                     outs = it.run_all(fl, {"self_": ns})
@@ -509,14 +528,14 @@ def flush_model(ctx, rule):
                 if any(o.imprecise for o in outs) or len(outs) != 1:
                     raise AnalysisError("absint imprecise on the flush (%s): %s" % (order, outs[0].notes[:2]))
                 last = {}
-                for e in evnames:
-                    last[e[0]] = e
+                for e in events:
+                    last[(e.attrs["name"], e.attrs["what"])] = (e.attrs["name"], e.attrs["new"])
                 expect = []
                 for k in sorted(order, key=lambda k: (ws[k].attrs["precedence"], order.index(k))):
-                    evs = [last[nm] for nm in ws[k].attrs["parameter_names"] if nm in last]
+                    evs = [last[(nm, ws[k].attrs["what"])] for nm in ws[k].attrs["parameter_names"] if (nm, ws[k].attrs["what"]) in last]
                     expect.append((k, evs))
                 if "w3" in order:
-                    expect.append(("wc", ["c1"]))
+                    expect.append(("wc", [("c", c_new)]))
                 leftover = len(ns.attrs["_events"]) + len(ns.attrs["_state_watchers"])
                 if runs != expect or leftover:
                     bad.append((list(order), evnames, runs, expect, leftover))
